@@ -425,6 +425,10 @@ class Translator:
             self.rules['pointer-to-member application -> field access'] += 1
             return '(%s%s%s)' % (self.e(a), '->' if op == '->*' else '.', fld)
         if op == ',': return '(%s, %s)' % (self.e(a), self.e(b))
+        if op == '=' and self.is_raw_subscript(a):
+            base, idx = inner(strip_casts(a))
+            self.rules['SharedMemory::raw[i] = v -> VERIF_RAW_WRITE(raw, i, v)'] += 1
+            return 'VERIF_RAW_WRITE(%s, %s, %s)' % (self.e(base), self.e(idx), self.e(b))
         if op in ('/', '%') and strip_casts(b, ('ImplicitCastExpr', 'ParenExpr', 'CStyleCastExpr', 'CXXStaticCastExpr', 'ConstantExpr')).get('kind') != 'IntegerLiteral' \
            and 'value' not in b and self.ctype(n['type']) == 'u64':
             self.rules['a / b, a % b with non-constant b -> VERIF_UDIV / VERIF_UMOD'] += 1
@@ -551,8 +555,17 @@ class Translator:
                 d -= 1
                 if d < 0: return False
         return d == 0
+    def is_raw_subscript(self, n):
+        n = strip_casts(n)
+        if n.get('kind') != 'ArraySubscriptExpr': return False
+        sa = strip_casts(inner(n)[0])
+        return sa.get('kind') == 'MemberExpr' and sa.get('name') == 'raw' and '*' in qt(sa['type'])
     def e_ArraySubscriptExpr(self, n):
         a, b = inner(n)
+        if self.is_raw_subscript(n):
+            # SharedMemory::raw points at the 0x80000-byte DSP memory: every access goes through a checked accessor
+            self.rules['SharedMemory::raw[i] -> VERIF_RAW_READ(raw, i) (bounds = outcome/obligation)'] += 1
+            return 'VERIF_RAW_READ(%s, %s)' % (self.e(a), self.e(b))
         return '%s[%s]' % (self.e(a), self.e(b))
     def e_CXXDefaultArgExpr(self, n):
         raise Unsupported('default arg outside call')
@@ -1434,10 +1447,10 @@ def extract(tu_rel, roots, out_c, opts=None, optional_roots=()):
 if __name__ == '__main__':
     import argparse
     ap = argparse.ArgumentParser()
-    ap.add_argument('tu'); ap.add_argument('out'); ap.add_argument('roots', nargs='+')
+    ap.add_argument('tu'); ap.add_argument('out'); ap.add_argument('roots', nargs='+')   # tu may be a+b for an umbrella unit
     ap.add_argument('--debug', action='store_true')
     a = ap.parse_args()
-    t, m = extract(a.tu, a.roots, a.out, {'debug': a.debug})
+    t, m = extract(a.tu.split('+') if '+' in a.tu else a.tu, a.roots, a.out, {'debug': a.debug})
     sys.stderr.write('functions: %d; failed %d (required %d)\n' % (len(t.out_funcs), len(t.failed), len(m['failed_required'])))
     for k, v in t.failed.items(): sys.stderr.write('  FAILED %s: %s\n' % (k, v))
     sys.stderr.write('rules: %s\ndropped: %s\n' % (dict(t.rules), dict(t.dropped)))
